@@ -166,7 +166,7 @@ def corpus_part(prop):
 
 
 def finish(prop, tier, seed, level, parts, rule, assumptions, t0):
-    cp = corpus_part(prop)
+    cp = corpus_part(prop) if prop not in ('C16', 'C17') else None  # their replays are differential / generated rows, not single tapes
     if cp is not None:
         parts = [cp] + list(parts)
     viol = []
@@ -659,12 +659,12 @@ def replay(prop, path):
     for u in all_units():
         if u.name == cfg:
             unit = u
-    if unit is None and prop == 'C16':
+    if prop == 'C16':
         if cfg == 'absence':
             return check_C16('quick', 1, time.time())
         ops = [l for l in lines[1:] if l.strip() and l.strip()[0].isdigit()]
         return check_C16('quick', 1, time.time(), only=(cfg, int(kv.get('level', 2)), ops))
-    if unit is None and prop == 'C17':
+    if prop == 'C17' and unit is None:
         from . import c17
         keys = [l[5:].strip() for l in lines if l.startswith('case ')]
         return check_C17('quick', 1, time.time(), only=[c17.parse_rid(k) for k in keys])
